@@ -72,40 +72,44 @@ Definition served (i : nat) (vs : list view) : list (list nat) := match nth_erro
 Definition last_read (items : list item) : list view * list view :=
   fold_left (fun acc it => match it with RRead d t => (d, t) | _ => acc end) items ([], []).
 
-(* ================================================================== Part 2: computed witnesses *)
+(* ================================================================== Part 2: the witnesses of the five repaired defects
+   (each refuted the property on the model of the code before the repair: Byods/TrUfProvBeforeFix.v) now pass *)
 
-(* F10: s; (0,1); m; (1,2); m -- (2,2) is readable from total after the second merge, and was in no view before *)
+(* F10: s; (0,1); m; (1,2); m -- (2,2) becomes readable from total in the second merge AND is served by that merge's delta *)
 Definition wit_f10 : list op := [OStart; OHead 0 0 1; OMerge; OHead 0 1 2; OMerge; OMerge; OEnd].
-Lemma wit_f10_refutes : protocol_ok wit_f10 = true /\ p3_check wit_f10 (run_bin 3 wit_f10) None = false.
-Proof. vm_compute. split; reflexivity. Qed.
+Lemma wit_f10_passes : protocol_ok wit_f10 = true /\ p3_check wit_f10 (run_bin 3 wit_f10) None = true /\
+  (let '(d, t) := last_read (run_bin 3 (firstn 5 wit_f10)) in lmem [2; 2] (served 0 d) = true /\ lmem [2; 2] (served 0 t) = true).
+Proof. vm_compute. repeat split; reflexivity. Qed.
 
 (* F5: key 0 receives a fact, pauses for one merge, receives another one *)
 Definition wit_f5 : list op := [OStart; OHead 0 0 1; OMerge; OMerge; OHead 0 1 2; OMerge; OMerge; OEnd].
-Lemma wit_f5_refutes : protocol_ok wit_f5 = true /\ has_panic AssertFail (run_ter false false 3 1 wit_f5) = true
-                     /\ has_panic AssertFail (run_ter true true 3 1 wit_f5) = true.
+Definition any_panic (items : list item) : bool := existsb (fun it => match it with RPanic _ _ => true | _ => false end) items.
+Lemma wit_f5_passes : protocol_ok wit_f5 = true /\ any_panic (run_ter false false 3 1 wit_f5) = false
+                     /\ any_panic (run_ter true true 3 1 wit_f5) = false /\
+  length (served 0 (snd (last_read (run_ter true true 3 1 wit_f5)))) = 6.
 Proof. vm_compute. repeat split; reflexivity. Qed.
 
-(* reverse maps: after inserting (0,0,1), index [0,1] (view 4) of total serves (0,1,1), index [1] (view 8) does not,
-   neither on delta nor on total *)
+(* reverse maps: after inserting (0,0,1), index [1] (view 8) serves (0,1,1) like index [0,1] (view 4) *)
 Definition wit_rev : list op := [OStart; OHead 0 0 1; OMerge; OMerge; OEnd].
-Lemma wit_rev_refutes : protocol_ok wit_rev = true /\
+Lemma wit_rev_passes : protocol_ok wit_rev = true /\
   let '(d, t) := last_read (run_ter true true 3 1 wit_rev) in
-  lmem [0; 1; 1] (served 4 t) = true /\ lmem [0; 1; 1] (served 8 d ++ served 8 t) = false.
+  lmem [0; 1; 1] (served 4 t) = true /\ lmem [0; 1; 1] (served 8 t) = true /\ lmem [0; 0; 0] (served 10 t) = true.
 Proof. vm_compute. repeat split; reflexivity. Qed.
 
 (* len_estimate of index [1,2] on an empty relation *)
-Lemma wit_len_estimate_refutes : t_i12_len_estimate (t_default true true) = Err AssertFail.
+Lemma wit_len_estimate_passes : t_i12_len_estimate (t_default true true) = Ok 0.
 Proof. reflexivity. Qed.
 
-(* a key of delta.map receives only the reflexive pair of a new element: dropped from delta.map, still in reverse_map1 *)
+(* a key of delta.map receives only the reflexive pair of a new element *)
 Definition wit_drop : list op := [OStart; OHead 0 0 0; OMerge; OHead 0 1 1; OMerge; OMerge; OEnd].
-Lemma wit_drop_refutes : protocol_ok wit_drop = true /\ has_panic UnwrapNone (run_ter true true 2 1 wit_drop) = true
-                       /\ has_panic UnwrapNone (run_ter false false 2 1 wit_drop) = false.
+Lemma wit_drop_passes : protocol_ok wit_drop = true /\ any_panic (run_ter true true 2 1 wit_drop) = false
+                       /\ any_panic (run_ter false false 2 1 wit_drop) = false.
 Proof. vm_compute. repeat split; reflexivity. Qed.
 
 (* a non-trivial instance that runs to the end: a chain, then a back edge that collapses three classes *)
 Definition wit_cycle : list op := [OStart; OHead 0 0 1; OHead 0 1 2; OMerge; OHead 0 2 0; OMerge; OMerge; OEnd].
-Lemma wit_cycle_runs : protocol_ok wit_cycle = true /\ has_panic AssertFail (run_bin 3 wit_cycle) = false /\
+Lemma wit_cycle_runs : protocol_ok wit_cycle = true /\ any_panic (run_bin 3 wit_cycle) = false /\
+  p3_check wit_cycle (run_bin 3 wit_cycle) None = true /\
   length (served 0 (snd (last_read (run_bin 3 wit_cycle)))) = 9.
 Proof. vm_compute. repeat split; reflexivity. Qed.
 
@@ -280,7 +284,7 @@ Qed.
 Lemma merge_fold_total : forall U, tr_is_empty U = false ->
   c_merge (CNew []) (CTotal U) (CTotal tr_empty) = Ok (CNew [], CDelta (mkD [] [] [] U), CTotal U).
 Proof.
-  intros U Hne. unfold c_merge. cbn [common_is_empty t_ids tr_empty isnil bind d_default d_prec unwrap_new].
+  intros U Hne. unfold c_merge. rewrite Hne. cbn [common_is_empty t_ids tr_empty isnil bind d_default d_prec unwrap_new].
   rewrite Hne. cbn [andb tr_run foldM bind]. unfold loop_fuel. cbn [dloop].
   cbn [join fold_left]. rewrite join_nil_rev. cbn [mmove fold_left bind]. reflexivity.
 Qed.
@@ -722,12 +726,19 @@ Section Protocol.
     - destruct H as [Et [HE Hs]]. exists Et; split; [exact HE|eapply psub_mono; eassumption].
   Qed.
 
-  (* ---- add_node for the pairs of new *)
-  Lemma add_node_ok : forall E st x, I E st -> exists st' id, add_node st x = Ok (st', id) /\ I (E ++ [(x, x)]) st' /\
-    mem_of st' id x /\ t_conn st' = t_conn st /\ t_rev st' = t_rev st /\ ext st st'.
+  (* ---- add_node_new for the pairs of new *)
+  Lemma good_self : forall Ins Et st id x, I Et st -> psub Et Ins -> mem_of st id x -> good Ins st id id.
   Proof.
-    intros E st x H. destruct (I_node HI E st x H) as [st' [id [fr [Ha Hr]]]].
-    exists st', id. unfold add_node. rewrite Ha. cbn [bind]. split; [reflexivity|exact Hr].
+    intros Ins Et st id x HE Hs Mx. split; [exists x; exact Mx|]. split; [exists x; exact Mx|].
+    intros u v Hu Hv. apply (rtc_closed _ _ Hs). apply (I_class HI Et st id u v HE Hu Hv).
+  Qed.
+
+  Lemma self_conn_ok : forall Ins Et st id x fresh cr, I Et st -> psub Et Ins -> mem_of st id x ->
+    dmap Ins st (fst cr) -> dmapr Ins st (snd cr) ->
+    dmap Ins st (fst (self_conn id fresh cr)) /\ dmapr Ins st (snd (self_conn id fresh cr)).
+  Proof.
+    intros Ins Et st id x fresh cr HE Hs Mx H1 H2. unfold self_conn. destruct fresh; [|split; assumption]. cbn [fst snd].
+    pose proof (good_self Ins Et st id x HE Hs Mx) as Hg. split; [apply dmap_mins|apply dmapr_mins]; assumption.
   Qed.
 
   Lemma add_nodes_ok : forall Ins nrel E st ncm ncrm st0,
@@ -742,8 +753,8 @@ Section Protocol.
     - exists st, ncm, ncrm, E. cbn [foldM]. split; [reflexivity|]. split; [exact HE|]. split; [exact Hs|]. split; [exact He|].
       split; [exact Hc|]. split; [exact Hr|]. split; [exact Hm|exact Hmr].
     - assert (Hxy : In (x, y) Ins) by (apply Hn; now left).
-      destruct (add_node_ok E st x HE) as [st1 [xid [Ha1 [HE1 [Mx [Hc1 [Hr1 He1]]]]]]].
-      destruct (add_node_ok _ st1 y HE1) as [st2 [yid [Ha2 [HE2 [My [Hc2 [Hr2 He2]]]]]]].
+      destruct (I_node HI E st x HE) as [st1 [xid [xn [Ha1 [HE1 [Mx [Hc1 [Hr1 He1]]]]]]]].
+      destruct (I_node HI _ st1 y HE1) as [st2 [yid [yn [Ha2 [HE2 [My [Hc2 [Hr2 He2]]]]]]]].
       assert (Hmx : mentioned Ins x) by (exists y; left; exact Hxy).
       assert (Hmy : mentioned Ins y) by (exists x; right; exact Hxy).
       assert (Hs2 : psub ((E ++ [(x, x)]) ++ [(y, y)]) Ins).
@@ -752,9 +763,9 @@ Section Protocol.
         - intros a b [Hab|[]]. inversion Hab; subst a b. apply mentioned_rtc; exact Hmy. }
       assert (He12 : ext st st2) by (eapply ext_trans; eassumption).
       assert (Hsub2 : forall u v, rtc ((E ++ [(x, x)]) ++ [(y, y)]) u v -> rtc Ins u v) by (apply rtc_closed; exact Hs2).
+      pose proof (ext_mem st1 st2 xid x He2 Mx) as Mx2.
       assert (Hg : good Ins st2 xid yid).
-      { pose proof (ext_mem st1 st2 xid x He2 Mx) as Mx2.
-        split; [exists x; exact Mx2|]. split; [exists y; exact My|].
+      { split; [exists x; exact Mx2|]. split; [exists y; exact My|].
         intros u v Hu Hv. eapply rtc_t; [|eapply rtc_t].
         - apply Hsub2. apply (I_class HI _ st2 xid u x HE2 Hu Mx2).
         - apply rtc_e. exact Hxy.
@@ -763,11 +774,14 @@ Section Protocol.
       { apply dmap_mins; [|exact Hg]. eapply dmap_ext; [exact Hm|exact He12|auto]. }
       assert (Hmr2 : dmapr Ins st2 (mins yid xid ncrm)).
       { apply dmapr_mins; [|exact Hg]. eapply dmapr_ext; [exact Hmr|exact He12|auto]. }
+      set (cr1 := self_conn xid xn (mins xid yid ncm, mins yid xid ncrm)).
+      destruct (self_conn_ok Ins _ st2 xid x xn (mins xid yid ncm, mins yid xid ncrm) HE2 Hs2 Mx2 Hm2 Hmr2) as [Hm3 Hmr3]. fold cr1 in Hm3, Hmr3.
+      destruct (self_conn_ok Ins _ st2 yid y yn cr1 HE2 Hs2 My Hm3 Hmr3) as [Hm4 Hmr4].
       assert (Hn' : forall p, In p nrel -> In p Ins) by (intros p Hp; apply Hn; now right).
       assert (He02 : ext st0 st2) by (eapply ext_trans; [exact He|exact He12]).
       assert (Hc02 : t_conn st2 = t_conn st0) by congruence.
       assert (Hr02 : t_rev st2 = t_rev st0) by congruence.
-      destruct (IH ((E ++ [(x, x)]) ++ [(y, y)]) st2 (mins xid yid ncm) (mins yid xid ncrm) st0 Hn' HE2 Hs2 He02 Hc02 Hr02 Hm2 Hmr2)
+      destruct (IH ((E ++ [(x, x)]) ++ [(y, y)]) st2 _ _ st0 Hn' HE2 Hs2 He02 Hc02 Hr02 Hm4 Hmr4)
         as [st' [ncm' [ncrm' [E' [Hf Hrest]]]]].
       exists st', ncm', ncrm', E'. split; [|exact Hrest].
       cbn [foldM]. unfold add_nodes_step at 1. cbn [fst snd]. rewrite Ha1. cbn [bind]. rewrite Ha2. cbn [bind]. exact Hf.
